@@ -242,6 +242,10 @@ func FindInsertionPoints(
 
 			// if the root value is a list
 			if rootList, ok := rootValue.([]interface{}); ok {
+				// the service answered with a list where the schema has an object
+				if len(rootList) < len(oldBranch) {
+					return nil, fmt.Errorf("root value of result chunk is a list of %d, expected an object. Point: %v", len(rootList), point)
+				}
 				for i := range oldBranch {
 					entry, ok := rootList[i].(map[string]interface{})
 					if !ok {
